@@ -650,7 +650,27 @@ def low_power(ctx: Ctx, py: PyProgram, rs: RustProgram) -> None:
             if isinstance(a, ast.AST) and any("IMR" in x for x in py_leaves(a, d)):
                 ctx.violation("C12.4/halt-wake-masked", key_of(EMU, "PCE500Emulator.step", "HALT wake-up depends on the interrupt mask"),
                               f"the HALT wake-up runs only when `{unparse(a)[:80]}` is {str(pol).lower()}, which reads the interrupt mask: a status bit pending while masked no longer ends HALT", f"{EMU}:{gp.nodes[w].line}")
-    ctx.instance("C12.4/low-power", "executor unreachable while halted/off; wake-up guarded by status bits (Rust closure + outer loop, Python step)", n_sites, 8)
+    # HALT/OFF park the CPU whatever is pending: the wake-up (which also re-arms the dispatcher from the live ISR) is the machine loop's
+    # job on the next step; an intrinsic that skips the halted state when ISR != 0 bypasses that re-arming
+    INTR = "sc62015/pysc62015/intrinsics.py"
+    ctx.file_used(REPO / INTR)
+    imod = py.module(INTR)
+    stores = []
+    for f_ in [x for x in ast.walk(imod.tree) if isinstance(x, ast.FunctionDef)]:
+        for i_, st_ in enumerate(f_.body):
+            for a in ast.walk(st_):
+                if isinstance(a, ast.Assign) and any(isinstance(t, ast.Attribute) and t.attr == "halted" for t in a.targets):
+                    stores.append((f_, st_, a))
+    ctx.need(bool(stores), "intrinsics.py: no store to state.halted found")
+    for f_, top, a in stores:
+        n_sites += 1
+        if isinstance(a.value, ast.Constant) and a.value.value is False:
+            continue                        # a reset path clearing the flag
+        if not (isinstance(a.value, ast.Constant) and a.value.value is True) or top is not a:
+            ctx.violation("C12.4/halt-unconditional", key_of(INTR, f_.name, "halted set conditionally"),
+                          f"{f_.name} sets `{unparse(a)[:70]}`{' under a condition' if top is not a else ''}: HALT/OFF must park the CPU unconditionally - with a request already latched the CPU runs on without the "
+                          "wake-up step that re-arms the dispatcher, so a second pending source is never delivered and the idle loop spins", f"{INTR}:{a.lineno}")
+    ctx.instance("C12.4/low-power", "executor unreachable while halted/off; wake-up guarded by status bits (Rust closure + outer loop, Python step); HALT/OFF set halted unconditionally", n_sites, 9)
 
 
 # ---------------------------------------------------------------------------
